@@ -11,6 +11,10 @@ class Listed(Exception):
     pass
 
 
+class ListedK(Listed, KeyError):        # a listed exception that is also a KeyError (a table lookup gone wrong)
+    pass
+
+
 class Unlisted(Exception):
     pass
 
@@ -27,7 +31,21 @@ class UnlistedK(Unlisted, LookupError):
     pass
 
 
-UNLISTED = [UnlistedT, UnlistedV, UnlistedK, Unlisted]      # what a custom function might plausibly raise
+class UnlistedKE(Unlisted, KeyError):
+    pass
+
+
+UNLISTED = [UnlistedT, UnlistedV, UnlistedK, UnlistedKE, Unlisted]      # what a custom function might plausibly raise
+
+
+def used_early(v):
+    """a validator constructed before the registrations is also USED before them (on the probe strings)"""
+    for warm in ["a@b", "ab", "1.2.3.4", "256.1.1.1", "2020-02-30", "", 1, None]:
+        try:
+            v.is_valid(warm)
+        except Exception:  # noqa
+            pass
+    return v
 
 
 def build_checker(js, base, regs, salt=0, before_regs=None):
@@ -58,12 +76,12 @@ def build_checker(js, base, regs, salt=0, before_regs=None):
             fc.checks(reg["name"])(lambda inst: type(inst) is int)
         elif beh == "listed":
             def f1(inst, n=n):
-                raised[n] = Listed("listed %d" % n)
+                raised[n] = (ListedK if (n + salt) % 2 else Listed)("listed %d" % n)
                 raise raised[n]
             fc.checks(reg["name"], raises=Listed)(f1)
         else:
             def f2(inst, n=n):
-                raised[n] = UNLISTED[(n + salt) % 4]("unlisted %d" % n)
+                raised[n] = UNLISTED[(n + salt) % 5]("unlisted %d" % n)
                 raise raised[n]
             fc.checks(reg["name"], raises=Listed)(f2)
     return fc, raised
@@ -100,7 +118,7 @@ def main(args):
             if key not in reused:
                 made = []
                 fc, raised = build_checker(js, ex["base"], ex["regs"], salt=d + len(reused),
-                                           before_regs=(lambda c: made.append(cls[d]({"format": ex["name"]}, format_checker=c))) if ex["early"] else None)
+                                           before_regs=(lambda c: made.append(used_early(cls[d]({"format": ex["name"]}, format_checker=c)))) if ex["early"] else None)
                 v = made[0] if ex["early"] else cls[d]({"format": ex["name"]}, format_checker=fc)
                 for warm in [INST["int"], INST["true"], INST["float"], INST["null"], "a@b", "ab", [1], {"a": 1}]:
                     try:
